@@ -4,8 +4,57 @@
 //! Decides, for one sequentially consistent interleaving, whether every pair of conflicting
 //! accesses of which at least one is non-atomic is ordered by happens-before.
 use rarena_allocator::verif::Kind;
-use std::collections::HashMap;
+use std::collections::{BTreeMap, HashMap};
 use std::sync::atomic::Ordering;
+
+/// Per-thread / per-message view of the modification orders: location key -> index of the oldest message that
+/// may still be read (coherence).  Few atomic locations exist in one execution, so an association list does.
+pub type View = Vec<(usize, u32)>;
+
+fn view_get(v: &View, k: usize) -> u32 {
+  v.iter().find(|e| e.0 == k).map(|e| e.1).unwrap_or(0)
+}
+fn view_raise(v: &mut View, k: usize, i: u32) {
+  if let Some(e) = v.iter_mut().find(|e| e.0 == k) {
+    if e.1 < i {
+      e.1 = i;
+    }
+  } else if i > 0 {
+    v.push((k, i));
+  }
+}
+fn view_join(a: &mut View, b: &View) {
+  for (k, i) in b {
+    view_raise(a, *k, *i);
+  }
+}
+
+/// One store in the modification order of an atomic location.
+struct Msg {
+  /// `None`: the location was overwritten non-atomically (or before the threads started); such a message can
+  /// only be read while it is the newest one, and then the value is whatever memory holds
+  val: Option<u64>,
+  /// what an acquire load of this message synchronises with (release sequences included)
+  relvc: Option<Vc>,
+  relview: Option<View>,
+}
+
+struct Loc {
+  msgs: Vec<Msg>,
+  /// index of the newest non-atomic overwrite: nothing older can be read without a data race
+  base: u32,
+}
+
+/// Operational release/acquire model ("views"): stores append to the modification order of their location, a load
+/// may read any message from the reading thread's view of the location onwards, acquire loads join the view the
+/// releasing store published, read-modify-writes read the newest message.  Every behaviour it produces is allowed
+/// by the C11 model (it is the promise-free fragment with the modification order equal to the execution order).
+#[derive(Default)]
+pub struct Weak {
+  locs: BTreeMap<usize, Loc>,
+  tv: Vec<View>,
+  pub stale_reads: u64,
+}
 
 pub const NT: usize = 6;
 type Vc = [u32; NT];
@@ -42,6 +91,8 @@ pub struct Hb {
   /// resolves (file, line) to the enclosing function name; only called when a race is reported
   resolve: fn(&str, u32) -> String,
   pub races: u64,
+  /// Some(..): loads may read older messages (exploration of non-SC executions)
+  pub weak: Option<Weak>,
 }
 
 #[derive(Clone, Copy)]
@@ -65,7 +116,7 @@ impl Hb {
     for (t, v) in vc.iter_mut().enumerate() {
       v[t] = 1;
     }
-    Hb { vc, rel: HashMap::new(), bytes: vec![ByteState::default(); cap], labels: vec![Label::None], label_ix: HashMap::new(), plain_ix: HashMap::new(), last: [0; NT], resolve, races: 0 }
+    Hb { vc, rel: HashMap::new(), bytes: vec![ByteState::default(); cap], labels: vec![Label::None], label_ix: HashMap::new(), plain_ix: HashMap::new(), last: [0; NT], resolve, races: 0, weak: None }
   }
 
   /// thread `init` spawned all others after everything it did so far
@@ -117,8 +168,51 @@ impl Hb {
     out.push((format!("hb-race:{}-vs-{}", a, b), format!("byte @{}: {} by thread {} is not ordered by happens-before after {} by thread {}", off, b, t, a, u)));
   }
 
+  pub fn enable_weak(&mut self) {
+    self.weak = Some(Weak { locs: BTreeMap::new(), tv: vec![vec![]; NT], stale_reads: 0 });
+  }
+
+  /// The messages thread `t` may read at `key` by a load with ordering `o`, newest first, one per distinct value:
+  /// `(message index, value)`.  `latest` is what memory holds.
+  pub fn load_candidates(&mut self, t: usize, key: usize, o: Ordering, latest: u64) -> Vec<(u32, u64)> {
+    let Some(w) = self.weak.as_mut() else { return vec![] };
+    // first access of the execution to this location: what memory holds is the newest write before the threads
+    // started (or a non-atomic write since then)
+    let l = w.locs.entry(key).or_insert_with(|| Loc { msgs: vec![Msg { val: Some(latest), relvc: None, relview: None }], base: 0 });
+    let last = l.msgs.len() - 1;
+    if let Some(v) = l.msgs[last].val {
+      if v != latest {
+        // memory was changed behind the monitor's back (a plain write it was not told about)
+        l.msgs.push(Msg { val: None, relvc: None, relview: None });
+        l.base = l.msgs.len() as u32 - 1;
+      }
+    }
+    let last = l.msgs.len() as u32 - 1;
+    let mut out = vec![(last, latest)];
+    if matches!(o, Ordering::SeqCst) {
+      return out;
+    }
+    let floor = view_get(&w.tv[t], key).max(l.base);
+    let mut i = last;
+    while i > floor {
+      i -= 1;
+      if let Some(v) = l.msgs[i as usize].val {
+        if !out.iter().any(|c| c.1 == v) {
+          out.push((i, v));
+        }
+      }
+    }
+    out
+  }
+
   #[allow(clippy::too_many_arguments)]
   pub fn atomic(&mut self, t: usize, key: usize, size: usize, kind: Kind, succ: Ordering, fail: Ordering, ok: bool, file: &'static str, line: u32, out: &mut Vec<(String, String)>) {
+    self.atomic_at(t, key, size, kind, succ, fail, ok, file, line, None, 0, 0, out)
+  }
+
+  /// `read_idx`: the message a load read (weak mode; `None` = the newest); `old` / `new`: values before and after
+  #[allow(clippy::too_many_arguments)]
+  pub fn atomic_at(&mut self, t: usize, key: usize, size: usize, kind: Kind, succ: Ordering, fail: Ordering, ok: bool, file: &'static str, line: u32, read_idx: Option<u32>, old: u64, new: u64, out: &mut Vec<(String, String)>) {
     let c = self.tick(t);
     let is_write = match kind {
       Kind::Load => false,
@@ -150,6 +244,10 @@ impl Hb {
         self.bytes[b].at[t] = (c, is_write, lab);
       }
     }
+    if self.weak.is_some() {
+      self.weak_sync(t, key, is_write, is_rmw, ord, read_idx, old, new);
+      return;
+    }
     // synchronisation
     if acq(ord) {
       if let Some(r) = self.rel.get(&key).copied() {
@@ -173,7 +271,67 @@ impl Hb {
     }
   }
 
+  #[allow(clippy::too_many_arguments)]
+  fn weak_sync(&mut self, t: usize, key: usize, is_write: bool, is_rmw: bool, ord: Ordering, read_idx: Option<u32>, old: u64, new: u64) {
+    let w = self.weak.as_mut().unwrap();
+    let l = w.locs.entry(key).or_insert_with(|| Loc { msgs: vec![Msg { val: Some(old), relvc: None, relview: None }], base: 0 });
+    let last = l.msgs.len() as u32 - 1;
+    if !is_write || is_rmw {
+      // the message read: a load reads `read_idx`, a (failed or successful) read-modify-write the newest one
+      let i = if is_write { last } else { read_idx.unwrap_or(last) };
+      if i < last {
+        w.stale_reads += 1;
+      }
+      view_raise(&mut w.tv[t], key, i);
+      if acq(ord) {
+        let m = &l.msgs[i as usize];
+        if let Some(r) = m.relvc {
+          join(&mut self.vc[t], &r);
+        }
+        if let Some(v) = m.relview.clone() {
+          view_join(&mut w.tv[t], &v);
+        }
+      }
+    }
+    if is_write {
+      let idx = last + 1;
+      view_raise(&mut w.tv[t], key, idx);
+      let (mut relvc, mut relview) = if is_rmw {
+        // continues every release sequence it reads from
+        let m = &l.msgs[last as usize];
+        (m.relvc, m.relview.clone())
+      } else {
+        (None, None)
+      };
+      if rel(ord) {
+        let mine = self.vc[t];
+        match relvc.as_mut() {
+          Some(r) => join(r, &mine),
+          None => relvc = Some(mine),
+        }
+        match relview.as_mut() {
+          Some(v) => view_join(v, &w.tv[t]),
+          None => relview = Some(w.tv[t].clone()),
+        }
+      }
+      l.msgs.push(Msg { val: Some(new), relvc, relview });
+    }
+  }
+
+  /// a non-atomic write covers `[off, off+len)`: older messages of the atomic locations in it are gone
+  fn weak_plain_write(&mut self, off: usize, len: usize) {
+    if let Some(w) = self.weak.as_mut() {
+      for (_, l) in w.locs.range_mut(off.saturating_sub(7)..off + len) {
+        l.msgs.push(Msg { val: None, relvc: None, relview: None });
+        l.base = l.msgs.len() as u32 - 1;
+      }
+    }
+  }
+
   pub fn plain(&mut self, t: usize, off: usize, len: usize, write: bool, label: &'static str, out: &mut Vec<(String, String)>) {
+    if write {
+      self.weak_plain_write(off, len);
+    }
     let c = self.tick(t);
     let lab = self.label_plain(label);
     let mut reported = false;
